@@ -273,7 +273,7 @@ func interleave(r *vcoq.Rand, arr []pub, recvPct int, nids int64) []lact {
 	var acts []lact
 	for _, p := range arr {
 		acts = append(acts, lact{P: p})
-		for r.Chance(recvPct) {
+		for k := 0; k < 3 && r.Chance(recvPct); k++ {
 			acts = append(acts, lact{Recv: true})
 		}
 	}
@@ -370,6 +370,30 @@ func genLossy(o *vcoq.Out, r *vcoq.Rand, thorough bool) {
 		seeded := int64(r.Intn(n/2 + 1))
 		arr := randomLegal(r, arriving(hist, seeded, func(pub) bool { return r.Chance(50) }))
 		jobs = append(jobs, job{seeded, hist, interleave(r, arr, []int{0, 20, 50}[r.Intn(3)], nids), "lossy:random"})
+	}
+	// (c) what the store produces since /repo 3d54e87: arrival in commit order; the commits still
+	// pending publication when the subscription opened (a contiguous run up to seeded, no Delete in
+	// it: a Delete publishes under the lock the subscription needs) arrive first
+	nio := 400
+	if thorough {
+		nio = 4000
+	}
+	for i := 0; i < nio; i++ {
+		n := r.Range(3, 12)
+		nids := int64(r.Range(1, 4))
+		hist := histScript(r, n, nids)
+		seeded := int64(r.Intn(n))
+		from := seeded - int64(r.Intn(4))
+		if from < 0 {
+			from = 0
+		}
+		for k := from; k < seeded; k++ {
+			if hist[k].C.Kind == 3 {
+				from = k + 1
+			}
+		}
+		arr := append([]pub(nil), hist[from:]...)
+		jobs = append(jobs, job{seeded, hist, interleave(r, arr, []int{0, 20, 50, 100}[r.Intn(4)], nids), "lossy:in-commit-order"})
 	}
 	results := make([][]ob, len(jobs))
 	parallel(len(jobs), func(i int) {
